@@ -129,30 +129,33 @@ theorem locateHunk_first (file : List Line) (h : Hunk) (iw : Bool) (offset maxFu
       some ⟨(p : Int), (f : Int), (p : Int) - (expectedLine h - 1 + offset)⟩ := by
   have hlt := admissible_lt_length file h iw maxFuzz p f hwf hc hadm
   obtain ⟨a1, a2, a3, _, _⟩ := (admissibleB_iff file h iw maxFuzz p f).1 hadm
-  have hmt := (hunkMatchesAt_iff_admissibleB file h iw maxFuzz p f a1 a2 a3).2 hadm
+  have hmt := (hunkMatchesAt_iff_admissibleB file h iw maxFuzz p f a1 a2 a3 hlt).2 hadm
   rw [fuzzPair_fst, fuzzPair_snd] at hmt a3
   rw [locateHunk_eq_loop file h iw offset maxFuzz ml hc]
   -- the probe is the placement spec for every fuzz up to `f`
-  have hprobe : ∀ f' q, f' ≤ f →
+  have hprobe : ∀ f' q, f' ≤ f → q < file.length →
       admissibleB file h iw maxFuzz q f' = false →
       hunkMatchesAt file h iw ((f' + prefixCtx h.lines) - max (prefixCtx h.lines) (suffixCtx h.lines))
         ((f' + suffixCtx h.lines) - max (prefixCtx h.lines) (suffixCtx h.lines)) q = false := by
-    intro f' q hle hna
+    intro f' q hle hqlt hna
     cases hm : hunkMatchesAt file h iw ((f' + prefixCtx h.lines) - max (prefixCtx h.lines) (suffixCtx h.lines))
         ((f' + suffixCtx h.lines) - max (prefixCtx h.lines) (suffixCtx h.lines)) q with
     | false => rfl
     | true =>
       have := (hunkMatchesAt_iff_admissibleB file h iw maxFuzz q f' (by omega) (by omega)
-        (by rw [fuzzPair_fst, fuzzPair_snd]; omega)).1 (by rw [fuzzPair_fst, fuzzPair_snd]; exact hm)
+        (by rw [fuzzPair_fst, fuzzPair_snd]; omega) hqlt).1 (by rw [fuzzPair_fst, fuzzPair_snd]; exact hm)
       rw [this] at hna; cases hna
   have hss : ml ≤ searchStart (expectedLine h - 1 + offset) ml file.length := searchStart_ge _ _ _
   have hss2 : searchStart (expectedLine h - 1 + offset) ml file.length ≤ max ml file.length := searchStart_le _ _ _
   refine locateLoop_first file h iw _ ml _ _ _ p f (by omega) a3 ?_ ?_ _ 0 (Nat.zero_le _) (by omega)
   · intro f' hf' q hq
     have hq' := (mem_candidates_searchStart _ ml file.length q).1 hq
-    exact hprobe f' q (by omega) (hless q f' hf' hq'.1)
+    exact hprobe f' q (by omega) hq'.2 (hless q f' hf' hq'.1)
   · exact find?_candidates_first _ ml file.length p _ hml hlt (by omega) hmt
-      (fun q hq => hprobe f q (Nat.le_refl _) (hfirst q hq))
+      (fun q hq => by
+        by_cases hqlt : q < file.length
+        · exact hprobe f q (Nat.le_refl _) hqlt (hfirst q hq)
+        · exfalso; unfold probedBefore at hq; omega)
 
 /-- the text has moved: the old side is found exactly (fuzz 0) at `p`, and at no position that the scan visits before `p` -/
 theorem locateHunk_moved (file : List Line) (h : Hunk) (iw : Bool) (maxFuzz : Int) (p : Nat)
@@ -226,7 +229,7 @@ theorem reversed_not_perfect (file : List Line) (h : Hunk) (iw : Bool) (maxFuzz 
 theorem applyPatch_place_one (file : List Line) (h : Hunk) (p0 : Patch) (o : ApplyOpts) (tty : Option (List Bool))
     (p : Nat) (f d : Int)
     (hrev : o.reverse = false) (hD : o.define = []) (hp : p0.hunks = [h]) (hops : Splice.OpsOK h.lines)
-    (hfit : p + (oldOf h.lines).length ≤ file.length)
+    (hple : p ≤ file.length) (htail : ∀ k, file.length ≤ p + k → Splice.delAt h.lines k = false)
     (hloc : locateHunk file h o.ignoreWhitespace 0 o.maxFuzz 0 = some ⟨(p : Int), f, d⟩)
     (hnp : ¬ (d = 0 ∧ f = 0))
     -- was (before fix 3f5edfc mirrored in the model): `o.force = true ∨ isPerfect (locateHunk file (reverseHunk h) …) = false`;
@@ -244,16 +247,16 @@ theorem applyPatch_place_one (file : List Line) (h : Hunk) (p0 : Patch) (o : App
       exact absurd ⟨hx.2, hx.1⟩ hnp
   have hne : ¬ (p > 0 ∧ p > file.length) := by omega
   have hfin : finishHunk file o p0 { tty := tty } 0 h (some ⟨(p : Int), f, d⟩) =
-      .ok { tty := tty, out := copyRange file 0 p ++ hunkOutput file h.lines p, cursor := p + (oldOf h.lines).length,
+      .ok { tty := tty, out := copyRange file 0 p ++ hunkOutput file h.lines p, cursor := nextCursor file h p,
             offErr := d, applied := [(0, ⟨(p : Int), f, d⟩)], perfect := false,
             msgs := [Msg.hunk 1 "succeeded" ((p : Int) + 1) f d], offNew := h.new.count - h.old.count } := by
     unfold finishHunk
-    simp [hperf, hD, Apply.writeHunkD_nil, Splice.writeHunk_eq file h.lines p hops hfit, hne, hunkMsg]
+    simp [hperf, hD, Apply.writeHunkD_nil, Splice.writeHunk_eq_min file h.lines p hops hple htail, hne, hunkMsg, nextCursor]
   have hsc : shouldCheckReversed (some ⟨(p : Int), f, d⟩) o = !o.force := by
     unfold shouldCheckReversed
     simp only [hnp, if_false]
   have hout : ([] ++ copyRange file 0 p ++ hunkOutput file h.lines p) ++
-      copyRange file (p + (oldOf h.lines).length) (file.length - (p + (oldOf h.lines).length)) = spliceAt file 0 [(h, p)] := by
+      copyRange file (nextCursor file h p) (file.length - nextCursor file h p) = spliceAt file 0 [(h, p)] := by
     simp [spliceAt, List.append_assoc]
   unfold applyPatch
   simp only [hrev, Bool.false_eq_true, if_false, hp, hloc, hsc]
@@ -276,12 +279,20 @@ theorem applyPatch_place_one (file : List Line) (h : Hunk) (p0 : Patch) (o : App
 /-! ### what one placement writes, as lines -/
 
 /-- the lines of the output for one placement: the file up to `p`, what the hunk writes, the file after the old side -/
+theorem drop_nextCursor (file : List Line) (h : Hunk) (p : Nat) :
+    file.drop (nextCursor file h p) = file.drop (p + (oldOf h.lines).length) := by
+  unfold nextCursor
+  by_cases hle : p + (oldOf h.lines).length ≤ file.length
+  · rw [Nat.min_eq_left hle]
+  · rw [Nat.min_eq_right (by omega), List.drop_eq_nil_of_le (Nat.le_refl _), List.drop_eq_nil_of_le (by omega)]
+
 theorem spliceAt_one_lines (file : List Line) (h : Hunk) (p : Nat) :
     (spliceAt file 0 [(h, p)]).map Out.line =
       file.take p ++ (hunkOutput file h.lines p).map Out.line ++ file.drop (p + (oldOf h.lines).length) := by
   have e : ∀ c, List.take (file.length - c) (List.drop c file) = List.drop c file :=
     fun c => List.take_of_length_le (by simp)
   simp only [spliceAt, List.map_append, Render.copyRange_map_line, List.drop_zero, Nat.sub_zero, List.append_assoc, e]
+  rw [drop_nextCursor]
 
 /-- laid over an exact copy of its old side, a hunk writes its new side -/
 theorem hunkOutput_exact (file : List Line) : ∀ (ls : List PatchLine) (p : Nat), Splice.OpsOK ls →
@@ -336,13 +347,14 @@ theorem spliceAt_one_exact (h : Hunk) (X Y : List Line) (hops : Splice.OpsOK h.l
 theorem lineEqB_self (iw : Bool) (a : Line) : lineEqB iw a a = true := by
   unfold lineEqB; simp
 
-/-- an exact copy of the old side after `X` is an admissible place without fuzz (with or without `-l`), whatever `-F` allows -/
+/-- an exact copy of the (non-empty) old side after `X` is an admissible place without fuzz (with or without `-l`), whatever `-F` allows -/
 theorem admissibleB_of_exact (h : Hunk) (iw : Bool) (maxFuzz : Int) (X Y : List Line) (hne : h.lines ≠ [])
-    (hmf : 0 ≤ maxFuzz) :
+    (hold : oldOf h.lines ≠ []) (hmf : 0 ≤ maxFuzz) :
     admissibleB (X ++ oldOf h.lines ++ Y) h iw maxFuzz X.length 0 = true := by
   rw [admissibleB_iff]
   have hl : 0 < h.lines.length := List.length_pos_iff.2 hne
-  refine ⟨by simpa using hmf, Nat.zero_le _, ?_, by simp, ?_⟩
+  have hol : 0 < (oldOf h.lines).length := List.length_pos_iff.2 hold
+  refine ⟨by simpa using hmf, Nat.zero_le _, ?_, by simp; omega, by simp; omega, ?_⟩
   · rw [fuzzPair_fst, fuzzPair_snd]; omega
   · intro j hj
     refine Or.inr (Or.inr ⟨(oldOf h.lines)[j], (oldOf h.lines)[j], ?_, by simp, lineEqB_self _ _⟩)
